@@ -40,6 +40,12 @@ CmpOK ==
     LET lt == LexLess(c1, c2)  gt == LexLess(c2, c1)  eq == (c1 = c2) IN
     Ev.cmp = <<eq, ~eq, lt, gt, ~gt, ~lt>>
 
+\* same keys position by position, same entries as bags (what a range insertion of s into an empty container may produce)
+SameUpToEquivalents(s, t) ==
+    /\ Len(t) = Len(s)
+    /\ \A i \in 1 .. Len(s) : /\ KeyOf(t[i]) = KeyOf(s[i])
+                               /\ Cardinality({j \in 1 .. Len(t) : t[j] = t[i]}) = Cardinality({j \in 1 .. Len(s) : s[j] = t[i]})
+
 OpOK ==
     LET c == Ev.c  s == Cur(c)  t == New(c) IN
     CASE Ev.op = "I" -> InsertOK(s, Ev.k, Ev.u, Ev.pos, Ev.ins, t) /\ OtherSame(c)
@@ -52,6 +58,7 @@ OpOK ==
       [] Ev.op = "B" -> BulkLoadOK(s, Ev.es, t) /\ OtherSame(c)
       [] Ev.op = "U" -> SubscriptOK(s, Ev.k, Ev.u, t) /\ OtherSame(c)
       [] Ev.op = "Y" -> Ev.s2 = c1 /\ Ev.s1 = c1              \* c2 copy-constructed from c1
+      [] Ev.op = "YR" -> SameUpToEquivalents(c1, Ev.s2) /\ Ev.s1 = c1     \* c2 constructed from the range [c1.begin(), c1.end()): entries with equivalent keys may come in another order
       [] Ev.op = "A" -> (CASE Ev.n = 1 -> Ev.s1 = c2 /\ Ev.s2 = c2
                            [] Ev.n = 2 -> Ev.s2 = c1 /\ Ev.s1 = c1
                            [] OTHER -> Ev.s1 = c1 /\ Ev.s2 = c2)     \* self assignment
